@@ -50,6 +50,16 @@ NOTES = {
  "C10-m8": "needed Tuple images relabelled with the legacy ids (serial version 1, sketch type 5)",
  "C14-m8": "needed the smallest legal table (3 buckets, 1..3 rows, one dominant item) in the confidence step",
  "C16-m8": "needed zero-weight updates in the batches",
+ # round 6 (stored as m9 / m10)
+ "C02-m10": "needed similarity_test / dissimilarity_test at, just above and just below the exact ratio",
+ "C03-m9": "needed the `spikes` step (2..15 inputs with register value >= 16 in different slots: the HLL_4 exception table grows)",
+ "C04-m10": "NOT caught: after reset() the pinned tree itself keeps the gadget's reduced lg_k, so lg_k is not judged after a reset",
+ "C07-m10": "needed copy assignment onto a live sketch (not only copy construction), read at once",
+ "C13-m9": "needed copy assignment between update sketches of different theta",
+ "C15-m9": "needed set operations through a read-only target (refused) and a read-only view as source operand (accepted)",
+ "C18-m9": "needed the reset object itself to be used again (the step used to replace it by a fresh one)",
+ "C20-m9": "NOT caught: needs an allocation failure inside update(); allocation faults are not injected into mutating calls (exception safety is not a stated property)",
+ "C20-m10": "needed a user kernel with state whose constructor argument differs from a default-constructed instance",
  "C20-m3": "needed refusals placed on the capacity boundary and the rule 'a refused operation leaves the observation unchanged'",
 }
 res = {}
